@@ -321,9 +321,20 @@ impl Lexer {
     /// If the next char is a [DOUBLE_QUOTE] tries to interpret anything until the next  [DOUBLE_QUOTE] as an identifier.
     /// Single-char tokens are pretty easy to peek any other way.
     pub fn next_token(&mut self) -> Token {
+        // Skipped input (comments, characters that are not part of any token) is consumed in a
+        // loop, not by recursion: a long run of it must not grow the stack.
+        loop {
+            if let Some(token) = self.scan_token() {
+                return token;
+            }
+        }
+    }
+
+    /// Scans one token. Returns `None` when only skippable input was consumed.
+    fn scan_token(&mut self) -> Option<Token> {
         self.skip_whitespace();
 
-        match self.current_char {
+        let token = match self.current_char {
             None => Token::Eof,
             Some(ESCAPE_QUOTE) => Token::StringLiteral(self.read_string()),
             Some(DOUBLE_QUOTE) => {
@@ -419,7 +430,7 @@ impl Lexer {
                         }
                         self.advance();
                     }
-                    self.next_token()
+                    return None;
                 } else {
                     Token::Minus
                 }
@@ -439,14 +450,16 @@ impl Lexer {
                     Token::Concat
                 } else {
                     // Single | is not a valid SQL operator, treat as unknown
-                    self.next_token()
+                    return None;
                 }
             }
             _ => {
                 self.advance();
-                self.next_token()
+                return None;
             }
-        }
+        };
+
+        Some(token)
     }
 
     /// Peek the next token, without advancing the cursor.
